@@ -906,7 +906,10 @@ pixman_image_fill_boxes (pixman_op_t           op,
     {
         uint32_t pixel;
 
-        if (color_to_pixel (color, &pixel, dest->bits.format))
+        /* The direct fill bypasses alpha maps and accessors */
+        if ((dest->common.flags & FAST_PATH_NO_ALPHA_MAP)		&&
+            (dest->common.flags & FAST_PATH_NO_ACCESSORS)		&&
+            color_to_pixel (color, &pixel, dest->bits.format))
         {
             pixman_region32_t fill_region;
             int n_rects, j;
